@@ -168,12 +168,10 @@ func (o *templatedObject) proto() *Object {
 }
 
 func (o *templatedObject) setProto(proto *Object, throw bool) bool {
-	o.protoMaterialised = true
-	ret := o.baseObject.setProto(proto, throw)
-	if ret {
-		o.protoMaterialised = true
-	}
-	return ret
+	// the current prototype takes part in the decision (same value, extensibility, cycles)
+	// and must survive a rejected change
+	o.materialiseProto()
+	return o.baseObject.setProto(proto, throw)
 }
 
 func (o *templatedObject) setForeignIdx(name valueInt, val, receiver Value, throw bool) (bool, bool) {
